@@ -94,7 +94,7 @@ theorem objEO_mono (obj : Metric) (hobj : obj ∈ objectivesEO) (groups : List (
   have hn : (0 : Rat) ≤ (totalNeg groups : Rat) := by positivity
   rcases hobj with rfl | rfl
   · -- accuracy
-    simp only [objEO, Metric.eval, eoCounts, CM.n]
+    simp only [objEO_eq, Metric.eval, eoCounts, CM.n]
     have e : ∀ t : Rat, (totalPos groups : Rat) * t + (totalNeg groups : Rat) * (1 - x) + (totalNeg groups : Rat) * x +
         (totalPos groups : Rat) * (1 - t) = (totalPos groups : Rat) + (totalNeg groups : Rat) := by intro t; ring
     rw [e y, e y']
@@ -102,7 +102,7 @@ theorem objEO_mono (obj : Metric) (hobj : obj ∈ objectivesEO) (groups : List (
     have := mul_le_mul_of_nonneg_left hy hp
     linarith
   · -- balanced accuracy
-    simp only [objEO, Metric.eval, eoCounts, CM.positives, CM.negatives]
+    simp only [objEO_eq, Metric.eval, eoCounts, CM.positives, CM.negatives]
     have e : ∀ t : Rat, (totalPos groups : Rat) * t + (totalPos groups : Rat) * (1 - t) = (totalPos groups : Rat) := by
       intro t; ring
     rw [e y, e y']
